@@ -19,13 +19,19 @@ import (
 	"bytes"
 	"crypto/sha256"
 	"encoding/hex"
+	"encoding/json"
 	"fmt"
 	"math"
 	"reflect"
+	"strconv"
 	"sync"
 	"sync/atomic"
 	"time"
 	"unsafe"
+
+	"github.com/fxamacker/cbor/v2"
+	"github.com/ghodss/yaml"
+	"github.com/vmihailenco/msgpack/v5"
 
 	"github.com/safing/portbase/database/record"
 	"github.com/safing/portbase/formats/dsd"
@@ -251,6 +257,79 @@ type Payload struct {
 	Sub    Sub
 	P      *Sub
 	Tagged string `json:"tagged_name,omitempty"`
+	// untyped positions
+	Any     interface{}
+	AnyMap  map[string]interface{}
+	AnyList []interface{}
+}
+
+// untypedValues are the values placed into the untyped positions. The first
+// group is written in the Go types encoding/json documents for untyped
+// positions (float64, string, bool, nil, []interface{}, map[string]interface{}),
+// so "equals the original" is plain DeepEqual; the second group are Go
+// integers, which the documented decoder gives back as the nearest float64.
+func untypedValues() []interface{} {
+	return []interface{}{
+		float64(0), float64(1), float64(-1), float64(1 << 53), float64(1<<53 - 1), -float64(1 << 53), 1.5, -2.25, 1e300, 5e-324,
+		"", "s", "12", true, false, nil,
+		[]interface{}{}, map[string]interface{}{},
+		[]interface{}{float64(2), "x", nil, false, []interface{}{float64(-7)}, map[string]interface{}{"d": 0.5}},
+		map[string]interface{}{"n": float64(1), "neg": float64(-3), "big": float64(1 << 53), "f": 0.25, "s": "v", "b": true, "nil": nil,
+			"l": []interface{}{float64(0), 1.75}, "m": map[string]interface{}{"deep": float64(42)}},
+		int(7), int64(-3), int64(1<<53 + 1), uint64(math.MaxUint64), int8(0),
+	}
+}
+
+// jsonView is the representation encoding/json documents for a value decoded
+// into an untyped position: every number is a float64 (the nearest one to its
+// decimal text), everything else keeps its shape.
+func jsonView(v interface{}) interface{} {
+	switch x := v.(type) {
+	case int:
+		return nearestFloat(strconv.FormatInt(int64(x), 10))
+	case int8:
+		return nearestFloat(strconv.FormatInt(int64(x), 10))
+	case int64:
+		return nearestFloat(strconv.FormatInt(x, 10))
+	case uint64:
+		return nearestFloat(strconv.FormatUint(x, 10))
+	case []interface{}:
+		if x == nil {
+			return x
+		}
+		out := make([]interface{}, len(x))
+		for i := range x {
+			out[i] = jsonView(x[i])
+		}
+		return out
+	case map[string]interface{}:
+		if x == nil {
+			return x
+		}
+		out := make(map[string]interface{}, len(x))
+		for k, e := range x {
+			out[k] = jsonView(e)
+		}
+		return out
+	}
+	return v
+}
+
+func nearestFloat(dec string) float64 {
+	f, _ := strconv.ParseFloat(dec, 64)
+	return f
+}
+
+// expected is the value a typed record must have after the round trip.
+func (p Payload) expected() Payload {
+	p.Any = jsonView(p.Any)
+	if p.AnyMap != nil {
+		p.AnyMap = jsonView(p.AnyMap).(map[string]interface{})
+	}
+	if p.AnyList != nil {
+		p.AnyList = jsonView(p.AnyList).([]interface{})
+	}
+	return p
 }
 
 // TestRec is the typed record of the harness schema (same shape as portbase's own test records).
@@ -294,13 +373,20 @@ func typedValues() []Payload {
 	// everything set at once
 	out = append(out, Payload{S: "all", I: math.MinInt64, U: math.MaxUint64, I8: -1, U16: 1, F: -2.5, B: true, Bytes: []byte{74, '{', '}'},
 		Strs: []string{"x"}, M: map[string]int64{"m": 2}, Sub: Sub{A: "s", B: -1}, P: &Sub{A: "p", B: 1}, Tagged: "<t>"})
+	// untyped positions: every untyped value in an interface{} field, as a map value and as a list element
+	uv := untypedValues()
+	for _, v := range uv {
+		out = append(out, Payload{Any: v}, Payload{AnyMap: map[string]interface{}{"k": v}}, Payload{AnyList: []interface{}{v}})
+	}
+	out = append(out, Payload{AnyMap: map[string]interface{}{}}, Payload{AnyList: []interface{}{}},
+		Payload{S: "mixed", I: 1<<53 + 1, Any: uv[19], AnyMap: map[string]interface{}{"a": float64(1), "b": "two", "c": nil}, AnyList: []interface{}{float64(-1), 2.5, "x", true, nil}})
 	return out
 }
 
 // ---------- cases and witnesses ----------
 
 type witness struct {
-	Kind    string   `json:"kind"` // wrapper | typed | bytes
+	Kind    string   `json:"kind"` // wrapper | typed | typed-alt | bytes
 	Family  string   `json:"family,omitempty"`
 	Key     string   `json:"key,omitempty"`
 	Meta    *metaV   `json:"meta,omitempty"`
@@ -456,7 +542,7 @@ func roundTrip(c *vlib.Ctx, st *stats, site string, r record.Record, exp expect,
 			default:
 				if !reflect.DeepEqual(nr.Payload, *exp.typed) {
 					bad = true
-					viol(c, "unwrap-equals-original", "Unwrap", "wrong-value", w, "typed record %+v became %+v; stored form %s", *exp.typed, nr.Payload, short(in))
+					viol(c, "unwrap-equals-original", "Unwrap", "wrong-value", w, "typed record %s became %s; stored form %s", goStr(*exp.typed), goStr(nr.Payload), short(in))
 				}
 				if nr.Key() != exp.key {
 					bad = true
@@ -531,7 +617,8 @@ func checkTyped(c *vlib.Ctx, st *stats, key string, m metaV, v Payload) string {
 	st.cases++
 	st.states++
 	st.nontrivial++
-	out, p := roundTrip(c, st, siteTyped, r, expect{key: key, meta: m, typed: &v}, w)
+	want := v.expected()
+	out, p := roundTrip(c, st, siteTyped, r, expect{key: key, meta: m, typed: &want}, w)
 	if out == "ok" && p != nil {
 		w.Note = "second generation: wrapper returned by NewRawWrapper serialised again"
 		o2, p2 := roundTrip(c, st, siteWrapper, p.w, expect{key: p.key, meta: p.meta, format: p.format, data: p.data}, w)
@@ -543,8 +630,8 @@ func checkTyped(c *vlib.Ctx, st *stats, key string, m metaV, v Payload) string {
 			var uerr error
 			pv, _ := vlib.Catch(func() { uerr = record.Unwrap(p2.w, nr) })
 			st.calls++
-			if pv != nil || uerr != nil || !reflect.DeepEqual(nr.Payload, v) {
-				viol(c, "unwrap-equals-original", "Unwrap", "wrong-value-second-generation", w, "typed record %+v became %+v (panic %v, err %v) after two round trips", v, nr.Payload, pv, uerr)
+			if pv != nil || uerr != nil || !reflect.DeepEqual(nr.Payload, want) {
+				viol(c, "unwrap-equals-original", "Unwrap", "wrong-value-second-generation", w, "typed record %s became %s (panic %v, err %v) after two round trips", goStr(want), goStr(nr.Payload), pv, uerr)
 				out = "second-generation-mismatch"
 			}
 		}
@@ -554,6 +641,83 @@ func checkTyped(c *vlib.Ctx, st *stats, key string, m metaV, v Payload) string {
 		cl = "deleted"
 	}
 	return "roundtrip:typed-" + cl + ":" + out
+}
+
+// goStr prints a payload with the Go types of the untyped positions visible.
+func goStr(p Payload) string {
+	return fmt.Sprintf("%+v [Any=(%T)%#v AnyMap=%#v AnyList=%#v]", p, p.Any, p.Any, p.AnyMap, p.AnyList)
+}
+
+var altFormats = []uint8{dsd.JSON, dsd.CBOR, dsd.MsgPack, dsd.YAML}
+
+// libraryDecode decodes data with the format's own decoder in its default
+// configuration: the representation the format documents for untyped positions.
+func libraryDecode(format uint8, data []byte, t interface{}) error {
+	switch format {
+	case dsd.JSON:
+		return json.Unmarshal(data, t)
+	case dsd.CBOR:
+		return cbor.Unmarshal(data, t)
+	case dsd.MsgPack:
+		return msgpack.Unmarshal(data, t)
+	case dsd.YAML:
+		return yaml.Unmarshal(data, t)
+	}
+	return fmt.Errorf("no library decoder for format %d", format)
+}
+
+// checkTypedAlt: the typed record serialised by Base.Marshal in another
+// serialisation format, held by a wrapper, stored, parsed and unwrapped. The
+// unwrapped record must be what the format's own decoder makes of the data.
+func checkTypedAlt(c *vlib.Ctx, st *stats, key string, m metaV, v Payload, format uint8) string {
+	w := witness{Kind: "typed-alt", Key: key, Meta: &m, Typed: &v, Format: format}
+	st.cases++
+	st.states++
+	r := &TestRec{Payload: v}
+	r.SetKey(key)
+	r.SetMeta(m.build())
+	var dumped []byte
+	var derr error
+	pv, stack := vlib.Catch(func() { dumped, derr = r.Marshal(r, format) })
+	st.calls++
+	name := fmt.Sprintf("roundtrip:typed-in-format-%d:", format)
+	if pv != nil {
+		viol(c, "marshal-never-panics", "Base.Marshal", vlib.PanicSite(stack), w, "Base.Marshal(format %d) panicked: %v", format, pv)
+		return name + "marshal-panic"
+	}
+	if derr != nil || len(dumped) < 1 || dumped[0] != format {
+		return name + "not-dumpable" // outside this property (C09: dsd dump/load)
+	}
+	data := dumped[1:]
+	ref := &TestRec{}
+	if err := libraryDecode(format, data, ref); err != nil {
+		return name + "library-decoder-rejects" // outside this property
+	}
+	st.nontrivial++
+	wr, _ := mkWrapper(key, m, format, data)
+	out, p := roundTrip(c, st, siteWrapper, wr, expect{key: key, meta: m, format: format, data: data}, w)
+	if out != "ok" || p == nil {
+		return name + out
+	}
+	nr := &TestRec{}
+	var uerr error
+	pv, stack = vlib.Catch(func() { uerr = record.Unwrap(p.w, nr) })
+	st.calls++
+	switch {
+	case pv != nil:
+		viol(c, "unwrap-never-panics", "Unwrap", vlib.PanicSite(stack), w, "Unwrap (format %d) panicked: %v", format, pv)
+		return name + "unwrap-panic"
+	case uerr != nil:
+		viol(c, "unwrap-equals-original", "Unwrap", "error-instead-of-ok-other-format", w, "Unwrap (format %d) returned %q, the format's decoder accepts the data %s", format, uerr, short(data))
+		return name + "unwrap-error"
+	case !reflect.DeepEqual(nr.Payload, ref.Payload):
+		viol(c, "unwrap-equals-original", "Unwrap", "differs-from-format-decoder", w, "format %d: Unwrap gave %s, the format's decoder gives %s; data %s", format, goStr(nr.Payload), goStr(ref.Payload), short(data))
+		return name + "mismatch"
+	case nr.Key() != key || nr.Meta() == nil || readMeta(nr.Meta()) != m:
+		viol(c, "unwrap-equals-original", "Unwrap", "wrong-meta", w, "format %d: key/meta %q %+v lost by Unwrap", format, key, m)
+		return name + "mismatch"
+	}
+	return name + "ok"
 }
 
 func sameResult(a, b parsed) bool {
@@ -938,13 +1102,14 @@ func corruptions(b baseEnc, fullSubstUpTo int, pairUpTo int, emit func(kind stri
 
 func main() {
 	vlib.Main("C08", "model_checking", func(c *vlib.Ctx) {
-		c.Rule("exhaustive enumeration of (a) records: metadata tuples over a boundary value set^4 x both flags x payload set x format set (all 256 formats on a smaller meta set) as wrapped raw data, and x a typed-value set of the harness schema as typed records, each serialised with the real MarshalRecord, parsed with the real NewRawWrapper, unwrapped (typed) and serialised a second time; " +
+		c.Rule("exhaustive enumeration of (a) records: metadata tuples over a boundary value set^4 x both flags x payload set x format set (all 256 formats on a smaller meta set) as wrapped raw data, and x a typed-value set of the harness schema as typed records (concretely typed fields, and every value of an untyped-value set - integral and non-integral numbers incl. 0, negatives and the 2^53 boundary, strings, bools, nil, nested maps/lists - in an interface{} field, as a map[string]interface{} value and as a []interface{} element), plus every typed value held by a wrapper in JSON/CBOR/MsgPack/YAML, each serialised with the real MarshalRecord, parsed with the real NewRawWrapper, unwrapped (typed) and serialised a second time; " +
 			"(b) byte strings: all strings of length <= 3; 01 | len | every meta-format byte | every body of length <= 2 with and without a data section (thorough: also every body of length 3 followed by a data section, for the 9 dsd format bytes and '{'); 01 | every boundary block length | 0..3 bytes; and for N valid encodings (wrappers, typed records, meta sections in JSON/CBOR/MsgPack/YAML/gzip) every truncation, every single-byte substitution (all 256 values in the header, {00,7f,80,ff} elsewhere), every varint field replaced by {0, v-1, v+1, 127, 128, 2^31, 2^62, 2^63, 2^64-1, non-minimal, >64 bit, unterminated}, single-byte insertions/deletions and pairs of header substitutions; every byte string is parsed twice (cap==len, and followed by a plausible continuation in the same allocation). " +
 			"states = distinct records + distinct byte strings (corruptions de-duplicated by hash); non-trivial = records, and byte strings for which a textbook decoder reaches the meta section (version 1 and a block covered by the input)")
 		c.Assume("the key is not part of the stored form: NewRawWrapper receives database name and key from the caller (as storage backends do); 'same key' is checked on Key() of the result")
 		c.Assume("for deleted records (Deleted > 0) the stored form carries no format byte and the parser reports RAW; the data format of a deleted record is therefore not compared, only that it has no data")
 		c.Assume("the private flags secret/crownjewel are set with MakeSecret/MakeCrownJewel and observed through CheckPermission, which reports exactly these two flags")
 		c.Assume("typed records: strings of the harness schema are valid UTF-8 and floats finite (the JSON encoding Base.MarshalRecord uses cannot represent others); equality is reflect.DeepEqual on the exported fields plus key and the six metadata fields")
+		c.Assume("untyped positions of a typed record (interface{} field, map[string]interface{} values, []interface{} elements): 'equals the original' means equal up to the representation the format's decoder documents for untyped positions. For the stored form of a typed record (JSON, the only format Base.MarshalRecord writes) that is encoding/json's: every number a float64 (originals written as float64 are compared exactly; Go integers are expected as the nearest float64), string, bool, nil, []interface{}, map[string]interface{}. For a typed record held by a wrapper in CBOR/MsgPack/YAML/JSON (scenario roundtrip-typed-other-formats) the unwrapped record is compared with what the format's own library decoder in default configuration makes of the same data; whether that equals the original is property C09's business and values a format cannot dump or its decoder rejects are skipped")
 		c.Assume("arbitrary bytes: a result of (record) or (error) is accepted for every input; beyond that only what the statement fixes is demanded: no panic, data inside the input, same result whatever follows the input in memory, no record when the block length exceeds the input, and the round-trip clause when the input is byte-for-byte what the real MarshalRecord produces for the record the layout describes; any record returned must itself round-trip")
 		if c.Replay != "" {
 			var w witness
@@ -1045,10 +1210,21 @@ func main() {
 			tm = allMetas(metaValues(false)) // typed x the 7-value set; the 13-value set is covered by the wrapper product
 			tm = append(tm, fewMetas()...)
 		}
+		{
+			// simplest metadata first and sequentially: stable minimal witnesses
+			st := newStats()
+			for vi, v := range tvs {
+				st.outcomes[checkTyped(c, st, keys[vi%len(keys)], tm[0], v)]++
+			}
+			st.flush(c)
+		}
 		c.ParallelFor(chunks, func(ch int) {
 			st := newStats()
 			defer st.flush(c)
 			for i := ch; i < len(tm); i += chunks {
+				if i == 0 {
+					continue
+				}
 				if i%64 == 0 && c.Expired() {
 					return
 				}
@@ -1057,6 +1233,37 @@ func main() {
 				}
 			}
 		})
+		phase("roundtrip-typed-other-formats")
+		{
+			fm := fewMetas()
+			var live []metaV
+			for _, m := range fm {
+				if !m.deleted() {
+					live = append(live, m)
+				}
+			}
+			{
+				st := newStats()
+				for vi := range tvs {
+					for _, f := range altFormats {
+						st.outcomes[checkTypedAlt(c, st, keys[vi%len(keys)], live[0], tvs[vi], f)]++
+					}
+				}
+				st.flush(c)
+			}
+			c.ParallelFor(len(tvs), func(vi int) {
+				st := newStats()
+				defer st.flush(c)
+				for mi, m := range live {
+					if mi == 0 {
+						continue
+					}
+					for _, f := range altFormats {
+						st.outcomes[checkTypedAlt(c, st, keys[(vi+mi)%len(keys)], m, tvs[vi], f)]++
+					}
+				}
+			})
+		}
 		c.Sample(witness{Kind: "wrapper", Key: "db:a:b", Meta: &fewMetas()[2], Format: 128, Payload: "01", Note: "stored form (reference layout) " + hx(refMarshal(fewMetas()[2], 128, []byte{1}))})
 		c.Sample(witness{Kind: "typed", Key: "db:k", Meta: &fewMetas()[1], Typed: &tvs[len(tvs)-1]})
 		c.Sample(witness{Kind: "wrapper", Key: "db:k", Meta: &fewMetas()[3], Format: dsd.JSON, Payload: hx([]byte(`{"a":1}`)), Note: "deleted: stored form " + hx(refMarshal(fewMetas()[3], dsd.JSON, nil))})
@@ -1242,8 +1449,15 @@ func replay(c *vlib.Ctx, w witness) {
 			c.EngineError("replay: witness without meta/typed value")
 			return
 		}
-		fmt.Printf("replaying typed record key=%q meta=%+v value=%+v\n", w.Key, *w.Meta, *w.Typed)
+		fmt.Printf("replaying typed record key=%q meta=%+v value=%s\n", w.Key, *w.Meta, goStr(*w.Typed))
 		fmt.Println("  outcome:", checkTyped(c, st, w.Key, *w.Meta, *w.Typed))
+	case "typed-alt":
+		if w.Meta == nil || w.Typed == nil {
+			c.EngineError("replay: witness without meta/typed value")
+			return
+		}
+		fmt.Printf("replaying typed record in format %d key=%q meta=%+v value=%s\n", w.Format, w.Key, *w.Meta, goStr(*w.Typed))
+		fmt.Println("  outcome:", checkTypedAlt(c, st, w.Key, *w.Meta, *w.Typed, w.Format))
 	case "bytes":
 		in := dec(w.Input)
 		fmt.Printf("replaying NewRawWrapper(%s) [%s]\n", short(in), w.Family)
